@@ -490,7 +490,12 @@ def native_run(scratch_repo, tests, timeout):
         filt = ['verif_native'] if kind != 'test' else []
         cmd = ['cargo', 'test', '--offline', '--release'] + target + filt + ['--', '--test-threads', str(NPROC), '--show-output']
         rc, so, se, wall = run(['timeout', '-k', '10', str(timeout)] + cmd, cwd=scratch_repo, env=env)
+        hang = re.search(r'^VERIF-NATIVE-HANG (\S+) (.*)$', so, flags=re.M)
         for t in sel:
+            if hang and hang.group(1).endswith(t['name']):
+                # reported by the watchdog inside the native test module: a concrete input on which the code under test did not return
+                out[t['name']] = dict(status='refuted', message='HANG: ' + hang.group(2)[:3000], cases=0, nontrivial=0, samples=[], time_s=round(wall, 1), cmd=' '.join(cmd), test=hang.group(1))
+                continue
             m = re.search(r'^test (\S*?' + re.escape(t['name']) + r') \.\.\. (\w+)', so, flags=re.M)
             if not m:
                 out[t['name']] = dict(status='undecided', message='native test did not run (rc=%s): %s' % (rc, (se[-1500:] + so[-500:])), cases=0, time_s=wall, cmd=' '.join(cmd))
